@@ -1,0 +1,146 @@
+//go:build verif
+
+// Contracts for the mt_transfer keeper (comment-only; read by /verif's tibcvc).
+package keeper
+
+//@ import clientkeeper "github.com/bianjieai/tibc-go/modules/tibc/core/02-client/keeper"
+//@ import packetkeeper "github.com/bianjieai/tibc-go/modules/tibc/core/04-packet/keeper"
+//@ import mtexported "mods.irisnet.org/modules/mt/exported"
+
+//@ wire (Keeper).storeKey = store mtxfer
+//@ wire (Keeper).pk = packetkeeper.Keeper
+//@ wire (Keeper).ck = clientkeeper.Keeper
+
+//@ spec IsAway(path: str, dst: str): bool
+//@ spec Away(src: str, dst: str, path: str): str
+//@ spec Back(path: str): str
+//@ spec moduleAddr(name: str): str
+//@ spec storedPath(S: store, class: str): str
+//@ spec vclass(path: str): str = ite(types.tracePath(path) == "", types.traceBase(path), types.ibcOf(types.tracePath(path), types.traceBase(path)))
+
+//@ // ---- assumed contracts of the irismod mt keeper (A-DEP), over the ghost maps mtBal / mtSupply (64-bit, overflow-checked
+//@ // adds in the dependency: a mint or credit that would exceed 2^64-1 fails)
+//@ iface types.MtKeeper.GetDenom(ctx, id) (denom, found)
+//@   ensures def: found <==> mtDenom[mtd(id)]
+//@ iface types.MtKeeper.HasMT(ctx, denomID, mtID) (result)
+//@   ensures def: result <==> mtExists[mts(denomID, mtID)]
+//@ iface types.MtKeeper.GetMT(ctx, denomID, mtID) (mt, err)
+//@   ensures def: err == nil <==> mtExists[mts(denomID, mtID)]
+//@ iface types.MtKeeper.IssueDenom(ctx, id, name, sender, data) (denom)
+//@   modifies mtDenom
+//@   ensures eff: mtDenom == old(mtDenom)[mtd(id) := true]
+//@ iface types.MtKeeper.IssueMT(ctx, denomID, mtID, amount, data, recipient) (mt, err)
+//@   modifies mtBal, mtSupply, mtExists
+//@   ensures ok:   err == nil <==> old(mtSupply)[mts(denomID, mtID)] <=u MAXU64 - amount && old(mtBal)[mtb(denomID, mtID, str(recipient))] <=u MAXU64 - amount
+//@   ensures eff:  err == nil ==> mtBal == old(mtBal)[mtb(denomID, mtID, str(recipient)) := old(mtBal)[mtb(denomID, mtID, str(recipient))] + amount]
+//@                              && mtSupply == old(mtSupply)[mts(denomID, mtID) := old(mtSupply)[mts(denomID, mtID)] + amount]
+//@                              && mtExists == old(mtExists)[mts(denomID, mtID) := true]
+//@   ensures fail: err != nil ==> mtBal == old(mtBal) && mtSupply == old(mtSupply) && mtExists == old(mtExists)
+//@ iface types.MtKeeper.MintMT(ctx, denomID, mtID, amount, recipient) (err)
+//@   modifies mtBal, mtSupply
+//@   ensures ok:   err == nil <==> old(mtSupply)[mts(denomID, mtID)] <=u MAXU64 - amount && old(mtBal)[mtb(denomID, mtID, str(recipient))] <=u MAXU64 - amount
+//@   ensures eff:  err == nil ==> mtBal == old(mtBal)[mtb(denomID, mtID, str(recipient)) := old(mtBal)[mtb(denomID, mtID, str(recipient))] + amount]
+//@                              && mtSupply == old(mtSupply)[mts(denomID, mtID) := old(mtSupply)[mts(denomID, mtID)] + amount]
+//@   ensures fail: err != nil ==> mtBal == old(mtBal) && mtSupply == old(mtSupply)
+//@ iface types.MtKeeper.TransferOwner(ctx, denomID, mtID, amount, srcOwner, dstOwner) (err)
+//@   modifies mtBal
+//@   ensures ok:   err == nil <==> old(mtBal)[mtb(denomID, mtID, str(srcOwner))] >=u amount &&
+//@                                  (str(srcOwner) == str(dstOwner) || old(mtBal)[mtb(denomID, mtID, str(dstOwner))] <=u MAXU64 - amount)
+//@   ensures eff:  err == nil && str(srcOwner) != str(dstOwner) ==> mtBal == old(mtBal)[mtb(denomID, mtID, str(srcOwner)) := old(mtBal)[mtb(denomID, mtID, str(srcOwner))] - amount]
+//@                                                        [mtb(denomID, mtID, str(dstOwner)) := old(mtBal)[mtb(denomID, mtID, str(dstOwner))] + amount]
+//@   ensures self: err == nil && str(srcOwner) == str(dstOwner) ==> mtBal == old(mtBal)
+//@   ensures fail: err != nil ==> mtBal == old(mtBal)
+//@ iface types.MtKeeper.BurnMT(ctx, denomID, mtID, amount, owner) (err)
+//@   modifies mtBal, mtSupply
+//@   ensures ok:   err == nil <==> old(mtBal)[mtb(denomID, mtID, str(owner))] >=u amount && old(mtSupply)[mts(denomID, mtID)] >=u amount
+//@   ensures eff:  err == nil ==> mtBal == old(mtBal)[mtb(denomID, mtID, str(owner)) := old(mtBal)[mtb(denomID, mtID, str(owner))] - amount]
+//@                              && mtSupply == old(mtSupply)[mts(denomID, mtID) := old(mtSupply)[mts(denomID, mtID)] - amount]
+//@   ensures fail: err != nil ==> mtBal == old(mtBal) && mtSupply == old(mtSupply)
+//@ iface mtexported.MT.GetData() (result)
+//@   flags getter
+//@ iface types.AccountKeeper.GetModuleAddress(name) (result)
+//@   ensures def: result == bytes(moduleAddr(name)) && result != nil && len(result) != 0
+
+//@ func (Keeper).determineAwayFromOrigin(class, destChain) (awayFromOrigin)
+//@   ensures noslash: !contains(class, "/") ==> awayFromOrigin
+//@   ensures noprefix: !hasprefix(class, "mt") ==> awayFromOrigin
+//@   trusts  def:     awayFromOrigin == IsAway(class, destChain)
+//@ func (Keeper).getAwayNewClassPath(scChain, destChain, class) (newClassPath)
+//@   trusts  def: newClassPath == Away(scChain, destChain, class)
+//@ func (Keeper).getBackNewClassPath(class) (newClassPath)
+//@   trusts  def: newClassPath == Back(class)
+//@ func (Keeper).getIBCClassFromClassPath(ctx, classPath) (result)
+//@   modifies mtxfer
+//@   ensures def:   result == vclass(classPath)
+//@   ensures frame: forall k: key :: !is_prefixed(k) ==> mtxfer[k] == old(mtxfer)[k]
+//@   trusts  trace: storedPath(mtxfer, result) == classPath
+//@ func (Keeper).ClassPathFromHash(ctx, class) (path, err)
+//@   trusts  def: err == nil ==> path == storedPath(mtxfer, class)
+
+//@ // A-DEP module facts of the irismod mt module, consequences of "the balances of an MT sum up to its supply":
+//@ // every balance is at most the supply, and two different holders together hold at most the supply.
+//@ spec mtSound(B: map_key_u64, S: map_key_u64): bool = forall c: str, i: str, a: str, b: str ::
+//@        B[mtb(c, i, a)] <=u S[mts(c, i)] && (a != b ==> B[mtb(c, i, a)] <=u S[mts(c, i)] - B[mtb(c, i, b)])
+//@
+//@ // ---- C05 / C06 / C09 / C19: exactly `amount` units move, 64-bit exact, never wrapping
+//@ func (Keeper).SendMtTransfer(ctx, class, id, sender, receiver, destChain, relayChain, destContract, amount) (err)
+//@   props C05 C06 C09 C19
+//@   modifies tibc, events, mtBal, mtSupply
+//@   let me       = clientkeeper.selfName(tibc)
+//@   let mod      = moduleAddr(types.ModuleName)
+//@   let voucher  = hasprefix(class, "tibc-")
+//@   let fullPath = ite(voucher, storedPath(mtxfer, class), class)
+//@   let away     = IsAway(fullPath, destChain)
+//@   let S        = mtb(class, id, str(sender))
+//@   let M        = mtb(class, id, mod)
+//@   requires nowrap: packetkeeper.nextSendVal(tibc[nextSend(me, destChain)]) <u MAXU64
+//@   requires native.ids: mtDenom[mtd(class)] && !voucher ==> !contains(class, "/")
+//@   ensures exists:     err == nil ==> mtDenom[mtd(class)] && mtExists[mts(class, id)] && me != destChain
+//@   ensures lock.exact: err == nil && away && str(sender) != mod ==> old(mtBal)[S] >=u amount && old(mtBal)[M] <=u MAXU64 - amount &&
+//@                         mtBal == old(mtBal)[S := old(mtBal)[S] - amount][M := old(mtBal)[M] + amount] && mtSupply == old(mtSupply)
+//@   ensures burn.exact: err == nil && !away ==> old(mtBal)[S] >=u amount && old(mtSupply)[mts(class, id)] >=u amount &&
+//@                         mtBal == old(mtBal)[S := old(mtBal)[S] - amount] && mtSupply == old(mtSupply)[mts(class, id) := old(mtSupply)[mts(class, id)] - amount]
+//@   ensures burn.is_voucher: err == nil && !away ==> voucher
+//@   ensures packet:     err == nil ==> ncalls((Keeper).SendPacket) == 1 && (forall c in calls((Keeper).SendPacket) :: c.err == nil &&
+//@                         c.packet.SourceChain == me && c.packet.DestinationChain == destChain && c.packet.RelayChain == relayChain && c.packet.Port == "MT" &&
+//@                         (exists d: str :: c.packet.Data == bytes(types.mtDataEnc(fullPath, id, bech32(sender), receiver, away, destContract, amount, d))))
+//@   ensures propagate:  (forall c in calls((Keeper).SendPacket) :: c.err != nil ==> err != nil)
+//@   ensures early.noeffect: err != nil && !called((Keeper).SendPacket) ==> mtBal == old(mtBal) && mtSupply == old(mtSupply) && tibc == old(tibc) && events == old(events)
+//@
+//@ func (Keeper).OnRecvPacket(ctx, packet, data) (err)
+//@   props C05 C06 C19
+//@   modifies mtBal, mtSupply, mtExists, mtDenom, mtxfer
+//@   let mod      = moduleAddr(types.ModuleName)
+//@   let rcv      = bech32dec(data.Receiver)
+//@   let vc       = vclass(Away(packet.SourceChain, packet.DestinationChain, data.Class))
+//@   let uc       = vclass(Back(data.Class))
+//@   requires sound: mtSound(mtBal, mtSupply)
+//@   ensures nonzero:     err == nil ==> data.Amount != 0 && validbech32(data.Receiver)
+//@   ensures mint.exact:  err == nil && data.AwayFromOrigin && rcv != mod ==>
+//@                          old(mtSupply)[mts(vc, data.Id)] <=u MAXU64 - data.Amount && mtSupply == old(mtSupply)[mts(vc, data.Id) := old(mtSupply)[mts(vc, data.Id)] + data.Amount] &&
+//@                          mtBal == old(mtBal)[mtb(vc, data.Id, rcv) := old(mtBal)[mtb(vc, data.Id, rcv)] + data.Amount] && old(mtBal)[mtb(vc, data.Id, rcv)] <=u MAXU64 - data.Amount
+//@   ensures unlock.exact: err == nil && !data.AwayFromOrigin && rcv != mod ==> mtSupply == old(mtSupply) && hasprefix(data.Class, "mt") &&
+//@                          old(mtBal)[mtb(uc, data.Id, mod)] >=u data.Amount && old(mtBal)[mtb(uc, data.Id, rcv)] <=u MAXU64 - data.Amount &&
+//@                          mtBal == old(mtBal)[mtb(uc, data.Id, mod) := old(mtBal)[mtb(uc, data.Id, mod)] - data.Amount][mtb(uc, data.Id, rcv) := old(mtBal)[mtb(uc, data.Id, rcv)] + data.Amount]
+//@   ensures err.noeffect: err != nil ==> mtBal == old(mtBal) && mtSupply == old(mtSupply)
+//@
+//@ func (Keeper).refundPacketToken(ctx, data) (err)
+//@   props C05 C06
+//@   modifies mtBal, mtSupply
+//@   let mod = moduleAddr(types.ModuleName)
+//@   let snd = bech32dec(data.Sender)
+//@   let vc  = vclass(data.Class)
+//@   requires sound: mtSound(mtBal, mtSupply)
+//@   ensures unlock: err == nil && data.AwayFromOrigin && snd != mod ==> mtSupply == old(mtSupply) && old(mtBal)[mtb(vc, data.Id, mod)] >=u data.Amount &&
+//@                     mtBal == old(mtBal)[mtb(vc, data.Id, mod) := old(mtBal)[mtb(vc, data.Id, mod)] - data.Amount][mtb(vc, data.Id, snd) := old(mtBal)[mtb(vc, data.Id, snd)] + data.Amount]
+//@   ensures remint: err == nil && !data.AwayFromOrigin && snd != mod ==> mtSupply == old(mtSupply)[mts(vc, data.Id) := old(mtSupply)[mts(vc, data.Id)] + data.Amount] &&
+//@                     mtBal == old(mtBal)[mtb(vc, data.Id, snd) := old(mtBal)[mtb(vc, data.Id, snd)] + data.Amount]
+//@   ensures err.noeffect: err != nil ==> mtBal == old(mtBal) && mtSupply == old(mtSupply)
+//@
+//@ func (Keeper).OnAcknowledgementPacket(ctx, data, ack) (err)
+//@   props C05 C06 C03
+//@   modifies mtBal, mtSupply
+//@   requires sound: mtSound(mtBal, mtSupply)
+//@   ensures success.noop: !called((Keeper).refundPacketToken) ==> mtBal == old(mtBal) && mtSupply == old(mtSupply) && err == nil
+//@   ensures refund.only_on_error: called((Keeper).refundPacketToken) ==> isErrorAck(ack)
+//@   ensures error.refunds: isErrorAck(ack) ==> ncalls((Keeper).refundPacketToken) == 1 && (forall c in calls((Keeper).refundPacketToken) :: c.data == data && c.err == err)
